@@ -234,10 +234,24 @@ fn nontrivial(ops: &[Op]) -> bool {
 
 fn gen_spec(t: &mut Tape) -> Spec {
     let mode = gen_mode(t);
-    let pts = match t.weighted(&[2, 1, 6]) {
+    let pts = match t.weighted(&[6, 3, 18, 1]) {
         0 => vec![],
         1 => vec![PathControlPoint { pos: Pos::new(t.int(0, 512) as f32, t.int(0, 384) as f32), path_type: Some(PathType::BEZIER) }],
-        _ => gen_points_ex(t, 8, false, true).0,
+        2 => gen_points_ex(t, 8, false, true).0,
+        _ => {
+            // scale: a long control-point list (beyond the sizes at which scratch buffers are first allocated):
+            // one segment of 101..260 points, optionally followed by a short second segment
+            let n = *t.pick(&[101usize, 102, 130, 200, 260]);
+            let ty = *t.pick(&[PathType::BEZIER, PathType::BEZIER, PathType::CATMULL, PathType::LINEAR]);
+            let mut v: Vec<PathControlPoint> = (0..n)
+                .map(|i| PathControlPoint { pos: Pos::new(((i * 37) % 512) as f32 + t.int(0, 3) as f32, ((i * 91) % 384) as f32), path_type: if i == 0 { Some(ty) } else { None } })
+                .collect();
+            if t.chance(40) {
+                let k = v.len() - 1 - t.below(3);
+                v[k].path_type = Some(*t.pick(&[PathType::BEZIER, PathType::CATMULL, PathType::PERFECT_CURVE, PathType::LINEAR]));
+            }
+            v
+        }
     };
     let len = match t.weighted(&[3, 2, 2, 1]) {
         0 => None,
